@@ -676,8 +676,9 @@ func fieldsOfType(n *types.Named, pred func(types.Type) bool) []string {
 }
 
 func typeIs(t types.Type, pkg, name string) bool {
+	t = types.Unalias(t)
 	if p, ok := t.(*types.Pointer); ok {
-		t = p.Elem()
+		t = types.Unalias(p.Elem())
 	}
 	n, ok := t.(*types.Named)
 	return ok && n.Obj().Pkg() != nil && n.Obj().Pkg().Path() == pkg && n.Obj().Name() == name
